@@ -247,6 +247,22 @@ def handle (toks : List String) : Option String :=
       (oracle.splitOn "|").mapM (fun lv => (lv.splitOn ";").mapM parseList))
     let r := Subset.pf a b N (Subset.run nc ms (ms + 1) g0 orc)
     some s!"{r.1} {r.2}"
+  | ["gradhess", m, d, c0, b, Q, xs, dx] => do
+    -- gradient and Hessian of the quadratic c0 + b.x + x'Qx by the regenerated first-derivative table with m points
+    let m ← m.toNat?
+    let d ← d.toNat?
+    let c0 ← parseFloatCsv c0
+    let b ← parseFloatCsv b
+    let Q ← parseFloatCsv Q
+    let xs ← parseFloatCsv xs
+    let dx ← parseFloatCsv dx
+    let t ← Gen.diffTables.find? (fun t => t.1 == 1 && t.2.1 == m)
+    let f := quadG d (c0.getD 0 0) (vecOf b 0) (matOf Q 0 d)
+    let x := vecOf xs 0
+    let h := dx.getD 0 1
+    let g := (List.range d).map (fun i => Deriv.partialD t f i x h)
+    let H := (List.range d).flatMap (fun i => (List.range d).map (fun j => Deriv.hessD t f i j x h))
+    some s!"{showFloats g} {showFloats H}"
   | ["sormpipe", n, kinds, p1, p2, rhoZ, xs, as, hx] => do
     -- the matrix whose eigenvalues are the main curvatures, from the design point x, the gradient a and the Hessian Hx of g there
     let n ← n.toNat?
